@@ -3,6 +3,23 @@ again, all on ONE simulation object.  usage: c01_history_probe.py <needs_nbody 0
 import json, math, sys, warnings
 import rebound
 warnings.simplefilter("ignore")
+if sys.argv[1] == "n0":
+    # empty simulation: step() and integrate() must not crash or hang; afterwards the same object must still work
+    integ = sys.argv[2]
+    sim = rebound.Simulation(); sim.integrator = integ; sim.dt = 0.01
+    if integ == "saba": sim.ri_saba.type = 6
+    sim.step(); sim.step()
+    t2 = sim.t
+    try:
+        sim.integrate(sim.t + 0.05)
+    except Exception:
+        pass
+    sim.add(m=1.0); sim.add(m=1e-3, a=1.0, e=0.05); sim.move_to_com()
+    x0 = sim.particles[1].x
+    sim.dt = 0.01; sim.steps(5); sim.synchronize()
+    ok = t2 == t2 and sim.particles[1].x == sim.particles[1].x and sim.particles[1].x != x0
+    print(json.dumps({"probe": "n0", "integrator": integ, "t_after_two_empty_steps": t2, "errors": [0.0], "t": sim.t, "ok": ok}))
+    sys.exit(0)
 nb = int(sys.argv[1]); other = sys.argv[2]
 sim = rebound.Simulation()
 sim.add(m=1.0); sim.add(m=1e-3, a=1.0, e=0.05); sim.add(m=5e-4, a=2.1, e=0.03, f=2.0)
